@@ -18,6 +18,7 @@ package dom
 
 import (
 	"reflect"
+	"slices"
 
 	"gopkg.in/yaml.v3"
 )
@@ -117,6 +118,14 @@ func decodeContainerFn(current *map[string]interface{}, parent ContainerBuilder)
 }
 
 func decodeYamlNode(n *yaml.Node) Node {
+	return decodeYamlNodeIn(n, nil)
+}
+
+// decodeYamlNodeIn converts n; open holds the anchored nodes whose conversion is in progress
+func decodeYamlNodeIn(n *yaml.Node, open []*yaml.Node) Node {
+	if n.Anchor != "" {
+		open = append(open, n)
+	}
 	switch n.Kind {
 	case yaml.ScalarNode:
 		// TODO: leaf is always string unless more elaborate approach is taken, but good for now
@@ -125,20 +134,31 @@ func decodeYamlNode(n *yaml.Node) Node {
 	case yaml.SequenceNode:
 		lb := ListNode()
 		for _, x := range n.Content {
-			lb.Append(decodeYamlNode(x))
+			lb.Append(decodeYamlNodeIn(x, open))
 		}
 		return lb
 	case yaml.DocumentNode:
 		if len(n.Content) == 1 {
-			return decodeYamlNode(n.Content[0])
+			return decodeYamlNodeIn(n.Content[0], open)
 		}
 	case yaml.MappingNode:
 		cb := b.Container()
 		l := len(n.Content)
 		for i := 0; i < l; i += 2 {
-			cb.AddValue(n.Content[i].Value, decodeYamlNode(n.Content[i+1]))
+			cb.AddValue(n.Content[i].Value, decodeYamlNodeIn(n.Content[i+1], open))
 		}
 		return cb
+	case yaml.AliasNode:
+		// an alias stands for a copy of the node its anchor marks; one that points into itself cannot be expanded
+		if n.Alias != nil {
+			if slices.Contains(open, n.Alias) {
+				return LeafNode("")
+			}
+			return decodeYamlNodeIn(n.Alias, open)
+		}
+	case 0:
+		// zero node: what yaml.Unmarshal leaves behind for an empty document; same as an explicit empty one ("---")
+		return LeafNode("")
 	}
 	return nil
 }
